@@ -584,6 +584,11 @@ func (s *GuardSet) restore(lockTypes []LockType, prevStates []RWMutexState) {
 			guard.Unlock()
 		case RWMutexStateShared:
 			guard.TryRLock() // downgrade, cannot fail
+		case RWMutexStateExclusive:
+			// A read-lock request downgrades a lock its owner held exclusively.
+			// Take it back; this only fails if another owner got a shared lock
+			// in since the downgrade.
+			guard.TryLock()
 		}
 	}
 }
